@@ -115,6 +115,10 @@ def replay_case(case):
     if case["kind"] == "kw":
         cid = bytes.fromhex(case["cid"])
         build_all_forms(cid, case["name"], case["mode"], _unjkw(case["kw"]), case["site"], acc, case)
+    elif case["kind"] == "extreme":
+        cid = bytes.fromhex(case["cid"])
+        pl = bytes(case["n"])
+        build_all_forms(cid, names_for(cid, pl[0:1]), case["mode"], {"payload": pl}, case["site"], acc, case)
     elif case["kind"] == "cfg":
         run_config(acc, only=case)
     return [(k, v[2]) for k, v in acc.viol.items()]
@@ -191,6 +195,17 @@ def run_payload_route(cid, ents, quick, acc):
                 build_all_forms(cid, name_id, mode, {"payload": pl}, site, acc, {"kind": "kw", "cid": cid.hex(), "name": name_id, "mode": mode, "kw": {"payload": {"b": pl.hex()}}, "site": site})
 
 
+def run_extreme_lengths(acc):
+    """Payload route at and beyond the largest length a 2-byte length field can express."""
+    for cid in (b"\x05\x01", b"\x0a\x04", b"\x00\x00", b"\x21\x04", b"\x06\x8a"):
+        for n in (65534, 65535, 65536, 65537, 65540, 70000, 131072):
+            for mode in (GET, SET):
+                pl = bytes(n)
+                site = f"payload_extreme|{'fits' if n <= 65535 else 'exceeds_u2'}"
+                build_all_forms(cid, names_for(cid, pl[0:1]), mode, {"payload": pl}, site, acc,
+                                {"kind": "extreme", "cid": cid.hex(), "mode": mode, "n": n, "site": site})
+
+
 def run_nokw(acc):
     for b, name in UBX_MSGIDS.items():
         cid = b[0:2]
@@ -263,6 +278,8 @@ def eval_block(block, acc):
         run_payload_route(bytes.fromhex(block[1]), ents, quick, acc)
     elif kind == "nokw":
         run_nokw(acc)
+    elif kind == "extreme":
+        run_extreme_lengths(acc)
     elif kind == "config":
         run_config(acc)
 
@@ -273,7 +290,7 @@ def run_tier(tier, t0):
     idx = list(range(len(ents)))
     blocks = [("entries", idx[i::64], q) for i in range(64)]
     blocks += [("payload", cid.hex(), q) for cid in FS.known_clsids()]
-    blocks += [("nokw", q), ("config", q)]
+    blocks += [("nokw", q), ("config", q), ("extreme", q)]
     acc = engine.sweep(blocks, eval_block)
     nr = sum(1 for e in ents if e.routed and not C.invalid_types(e.pdict))
     engine.finish(
@@ -281,7 +298,7 @@ def run_tier(tier, t0):
         rule=(
             f"{nr} routed definitions x keyword route (counts 0..2; every attribute at its boundary values) ; every named class/ID x payload route x "
             + ("lengths {0,1,2,3,nominal-1,nominal,nominal+1,nominal+16} x 2 fills" if q else "every length 0..nominal+16 x 4 fills")
-            + " x its modes; no-keyword form of every message ID x 3 modes; unknown class/IDs; config_set/del/poll with 0..64 keys by name and by ID; every construction attempted by bytes, ints and names. "
+            + " x its modes; no-keyword form of every message ID x 3 modes; unknown class/IDs; payload lengths 65,534..131,072 (at and beyond the 2-byte length field); config_set/del/poll with 0..64 keys by name and by ID; every construction attempted by bytes, ints and names. "
             "states = definitions covered; transitions = frames checked against the independent framing oracle; distinct_nontrivial = (route, mode, built/refused) classes"
         ),
         assumptions=["independent Fletcher/framing in mc/refmodel/core.py", "the names form is compared where the message ID has a unique name (O11)"],
